@@ -45,10 +45,10 @@ HARNESSES = [
     H('U-DET', 'detect', 'detect_order_and_totality', 'complete', ['C09', 'C10', 'C12', 'C04'],
       bounds='all 3^4 trial outcomes', fns=['detect::detect_format'], timeout=300, min_covers=4,
       assumes=['the four input_matches trials are stubbed: each returns any of Ok(true)/Ok(false)/Err']),
-    H('U-DET', 'detect', 'detect_trials_get_rewound_reader', 'complete', ['C09', 'C12'],
-      bounds='all four trials run; 3-byte symbolic stream; trials read 1 or 2 bytes', timeout=600, min_covers=1,
-      fns=['detect::detect_format', 'input::Handle::borrow_mut', 'input::GuardedCaptureReader::rewind_and_borrow_mut', 'input::CaptureReader::read'],
-      assumes=['trial parsers stubbed; trial outcomes fixed to Ok(false)']),
+    H('U-DET', 'input', 'detect_trials_get_rewound_reader', 'bounded-size', ['C09', 'C12'],
+      bounds='handle in any valid state over a stream <= 4 B; all 3^4 trial outcomes; each trial moves the cursor by any amount', timeout=900, min_covers=1,
+      fns=['detect::detect_format', 'input::Handle::borrow_mut', 'input::GuardedCaptureReader::rewind_and_borrow_mut', 'input::CaptureReader::rewind'],
+      assumes=['trial parsers stubbed: they inspect and move the capture cursor instead of reading through Box<dyn Read>']),
     H('U-PIPE', 'pipecheck', 'every_write_method_diverts_broken_pipe', 'complete', ['C16'],
       bounds='5 Write methods x 6 inner results', timeout=300, min_covers=2,
       fns=['pipecheck::Writer::write', 'pipecheck::Writer::flush', 'pipecheck::Writer::write_all', 'pipecheck::Writer::write_fmt',
